@@ -168,7 +168,7 @@ func c12(c *Check) {
 	c.Rule("C12/delete-all-indexes", "DeleteTokenPair removes the pair, its contract entry and each of its denominations", 3)
 	c.Spec("C12/delete-all-indexes", Macros{}, FnSpec{Fn: agK + "Keeper.DeleteTokenPair", Effects: []Eff{
 		{Label: "pair", Callee: "keeper.(Keeper).deleteTokenPair", N: 1, Args: map[int]string{2: "aggregate/types.(TokenPair).GetID($2)"}},
-		{Label: "contract", Callee: "keeper.(Keeper).deleteERC20Map", N: 1, Args: map[int]string{2: "aggregate/types.(TokenPair).GetERC20Contract($2)"}},
+		{Label: "contract", Callee: "keeper.(Keeper).deleteERC20Map", N: 1, Args: map[int]string{2: "go-ethereum/common.HexToAddress($2.ERC20Address)"}},
 		{Label: "denoms", Callee: "keeper.(Keeper).deleteDenomMap", N: 1, Args: map[int]string{2: "$2.Denoms[(μ{-1} + 1)]"}},
 	}})
 
